@@ -81,6 +81,7 @@ EXOTIC_NAMES = ['db.Layer', 'db_Layer', 'dbxLayer', 'C++', 'DB(sqlite)',
                 'A.b', 'A-b', '{2}']
 P_EXOTIC = 0.1
 P_FALSY = 0.12
+P_FACTORY = 0.15
 
 
 def exoticise(rng, specs, p=None):
@@ -141,6 +142,11 @@ def random_layer_graph(rng, nmax=6, nmin=1, p_edge=0.4, p_inst=0.35,
         if kind == 'inst' and rng.random() < P_FALSY:
             # a layer object that is false (an empty container)
             specs[-1]['falsy'] = True
+    if rng.random() < P_FACTORY:
+        # every class layer of this graph comes out of one factory function
+        for sp in specs:
+            if sp['kind'] == 'class':
+                sp['factory'] = True
     exoticise(rng, specs, p_exotic)
     return specs
 
